@@ -52,8 +52,8 @@ func init() {
 		NotCovered: "equality of program output across configurations in general; the unchecked push headroom (growth is only tested at calls, at 70% occupancy); thread-pool and channel sizing.",
 	}
 	props["C13"] = &PropSpec{
-		Rules:      []string{"path/closeupvalues", "path/continue-closes", "cover/rebase"},
-		Decides:    "that an open upvalue never outlives the stack slot it points at: every VM function that releases or reuses the current frame's slots closes the frame's upvalues first (frame restore, in-place tail call); `continue` lands on the end-of-iteration upvalue closing the compiler emits; stack growth rebases every open upvalue.",
+		Rules:      []string{"path/closeupvalues", "path/continue-closes", "path/loop-closes-upvalues", "cover/rebase"},
+		Decides:    "that every loop form the compiler emits closes the upvalues captured in an iteration before it jumps back (inner scope left, or an explicit closing), so closures of different iterations do not share a variable; that an open upvalue never outlives the stack slot it points at: every VM function that releases or reuses the current frame's slots closes the frame's upvalues first (frame restore, in-place tail call); `continue` lands on the end-of-iteration upvalue closing the compiler emits; stack growth rebases every open upvalue.",
 		NotCovered: "the sorted-list invariant of the open-upvalue list under arbitrary capture orders (captureUpvalue), and which scope a given local is closed with in every loop form.",
 	}
 	props["C29"] = &PropSpec{
